@@ -10,7 +10,7 @@ variable {T : Table} {L : Ladder} {Q : SeqSyms}
 theorem stops_sep (hq : SeqOK L Q) {s : Nat} (hs : s ∈ [Q.comma, Q.turnA, Q.turnU]) (r : List Tok) :
     Stops L 0 (.sym s :: r) := by
   have h := hq.2 s hs
-  refine ⟨by simp [atomStart, h.1], fun j _ hj => by simp [headInfix, h.2 j hj]⟩
+  refine ⟨by simp [atomStart, h.1], fun j _ hj => by simp [headInfix, h.2.1 j hj]⟩
 
 theorem parse_hyp (hc : TableConsistent T L) (uni : Bool) {t : Skel} (hw : t.WF T L) {rest : List Tok} (hst : Stops L 0 rest) :
     parseAt T L ((printSkel T L uni t ++ rest).length + 1) 0 (printSkel T L uni t ++ rest) = some (t, rest) :=
@@ -24,7 +24,7 @@ theorem parse_concl (hc : TableConsistent T L) (uni : Bool) {c : Skel} (hw : c.W
 
 /-- the first token of a printed term, if it is a symbol, is a prefix operator or a binder -/
 theorem head_sym (hc : TableConsistent T L) (uni : Bool) : ∀ t : Skel, t.WF T L → ∀ s r, printSkel T L uni t = .sym s :: r →
-    (L.binderIdx s).isSome = true ∨ ∃ j, j < L.n ∧ (L.at j).has s = true := by
+    (L.binderIdx s).isSome = true ∨ (∃ j, j < L.n ∧ (L.at j).has s = true) ∨ s = L.lbrace := by
   intro t
   induction t with
   | atom x => intro _ s r h; simp [printSkel] at h
@@ -60,7 +60,7 @@ theorem head_sym (hc : TableConsistent T L) (uni : Bool) : ∀ t : Skel, t.WF T 
     intro hw s r h
     simp only [printSkel, List.cons.injEq, Tok.sym.injEq] at h
     obtain ⟨hl, _, hsA, hsU, _⟩ := (hc.1 o hw.1).2 hw.2.1
-    refine Or.inr ⟨rowLevel T L o, hl, ?_⟩
+    refine Or.inr (Or.inl ⟨rowLevel T L o, hl, ?_⟩)
     rw [← h.1]
     rcases spell_cases (T := T) uni o with h' | h' <;> rw [h'] <;> assumption
   | binder b x body _ =>
@@ -75,6 +75,18 @@ theorem head_sym (hc : TableConsistent T L) (uni : Bool) : ∀ t : Skel, t.WF T 
     simp only [printSkel, List.cons.injEq, Tok.sym.injEq] at h
     rw [← h.1, binder_idx hc uni hw.1]
     exact Or.inl rfl
+  | interval a b _ _ =>
+    intro _ s r h
+    simp only [printSkel, List.cons.injEq, Tok.sym.injEq] at h
+    exact Or.inr (Or.inr h.1.symm)
+  | collect x body _ =>
+    intro _ s r h
+    simp only [printSkel, List.cons.injEq, Tok.sym.injEq] at h
+    exact Or.inr (Or.inr h.1.symm)
+  | collectT x ty body _ =>
+    intro _ s r h
+    simp only [printSkel, List.cons.injEq, Tok.sym.injEq] at h
+    exact Or.inr (Or.inr h.1.symm)
 
 theorem hypsMore_len (uni : Bool) (hs : List Skel) : hs.length ≤ (printHypsMore T L Q uni hs).length := by
   induction hs with
@@ -147,9 +159,10 @@ theorem thm_parse_print_core (hc : TableConsistent T L) (hq : SeqOK L Q) (uni : 
               simp only [isTurn, Bool.or_eq_true, decide_eq_true_eq] at hts
               rcases hts with h | h <;> simp [h]
             have hq' := hq.2 s hmem
-            rcases hhead with hb | ⟨j, hj, hh⟩
+            rcases hhead with hb | ⟨j, hj, hh⟩ | hb
             · rw [hq'.1] at hb; cases hb
-            · rw [hq'.2 j hj] at hh; cases hh
+            · rw [hq'.2.1 j hj] at hh; cases hh
+            · exact absurd hb hq'.2.2
         simp only [List.cons_append, parseThm, hnot, Bool.false_eq_true, ite_false]
         simpa using hloop
       | _ => simpa [parseThm] using hloop
